@@ -20,7 +20,7 @@ OUTSIDE = ['numericalJacobian = analytic up to O(delta^2): a truncation-error st
            'floating point']
 ASSUMPTIONS = ['formal differentiation: d/dtheta sin = cos, d/dtheta cos = -sin on the polynomial normal form']
 EXPLORER_DEFAULTS = {'quick': dict(prove_timeout_ms=30000, time_budget_s=900, max_paths=100, max_decisions=100),
-                     'thorough': dict(prove_timeout_ms=120000, time_budget_s=3000, max_paths=500, max_decisions=150)}
+                     'thorough': dict(prove_timeout_ms=120000, time_budget_s=1200, max_paths=500, max_decisions=150)}
 TOL = '1e-6'
 
 
